@@ -413,3 +413,7 @@ def check(run):
     from . import c10 as _c10
     run.rules_run.append("R12e")
     run.rule(_c10.option_defaults, run, "R12e", {'no_explicit_cast': 'False', 'no_data_loss': 'False'}, "the conversion preferences are off unless requested")
+    # round 8: shared helpers decided as tables (helper_table.py)
+    from . import helper_table as _ht
+    run.rules_run.append("R12f")
+    run.rule(_ht.r_multi, run)
